@@ -160,7 +160,25 @@ impl Storage {
             "Recovering from wal checkpoint {}",
             earliest_uncommited_wal_id
         );
-        let wal_files = writer.list(wal_dir).unwrap();
+        // Only `<id>.wal` files are WAL segments. A `store` that was interrupted between creating its
+        // temporary file and renaming it leaves `<id>..INCOMPLETE` behind. That segment was never
+        // acknowledged, may be truncated, and is not at the path `delete_wal_segments` expects, so it
+        // must not be loaded or replayed.
+        let (wal_files, other_files): (Vec<PathBuf>, Vec<PathBuf>) = writer
+            .list(wal_dir)
+            .unwrap()
+            .into_iter()
+            .partition(|path| path.extension().is_some_and(|ext| ext == "wal"));
+        for path in other_files {
+            if !readonly && path.extension().is_some_and(|ext| ext == "INCOMPLETE") {
+                log::info!("Deleting incomplete wal segment {}", path.display());
+                if let Err(err) = writer.delete(&path) {
+                    log::warn!("Failed to delete {}: {}", path.display(), err);
+                }
+            } else {
+                log::warn!("Ignoring unexpected file {} in wal directory", path.display());
+            }
+        }
         let num_wal_files = wal_files.len();
         log::info!("Found {} wal segments", wal_files.len());
 
